@@ -41,63 +41,63 @@ func init() {
 		Technique:   "client-boundary history recorder + porcupine linearizability checker with the sequentially replayed implementation as specification, executions under the tracked sync shim (seeded delays between critical sections); offline conservation checker over long unique-value runs",
 		Assumptions: []string{"interleavings are those the runtime + seeded delays produce (measured: distinct lock-acquisition orders are reported); not exhaustive, a split section that no run opens is missed", "relies on C01 for races inside one lock acquisition (no delay is injected there)", "the sequential behaviour itself is judged by C03-C09, not here", "porcupine v1.3.0 is trusted"}})
 	reg(&propCfg{ID: "C01", Pkg: "./props/c01", Variants: c01Variants,
-		Level:       "held on every executed scenario: every unordered pair (incl. self-pairs) of public methods of each of the 8 lock-guarded types (cache with and without the cleanup goroutine) x initial states {0,1,3 elements} x randomised start order x 20 (thorough 200) repetitions under the race detector with yields injected at every lock boundary, the same scenarios x 40 (300) under the tracked shim (deadlock verdict, leaked lock, usability afterwards, panic filter), long random mixes; thorough adds triples and GOMAXPROCS in {16,4,2,1}",
+		Level:       "held on every executed scenario: every unordered pair (incl. self-pairs) of public methods of each of the 8 lock-guarded types (cache with and without the cleanup goroutine) x initial states {0,1,3 elements} x randomised start order x 20 (thorough 200) repetitions under the race detector with yields injected at every lock boundary, the same scenarios x 40 (300) under the tracked shim (deadlock verdict, leaked lock, usability afterwards, panic filter), long random mixes; heaps additionally with a second shared heap in both roles (a.Meld(b) against b.Meld(a)); thorough adds triples and GOMAXPROCS in {16,4,2,1}",
 		Technique:   "Go race detector over a pairwise method-scenario table with injected delays at lock boundaries (sync shim) + tracked-lock shim deciding deadlock/leaked-lock/usability",
 		Assumptions: []string{"the scratch copy differs from /repo only by the redirected sync import (regenerated from the working tree on every run)", "race reports are schedule-insensitive once both accesses execute in one scenario; panics and deadlocks depend on the interleavings the runtime + jitter produce", "not asserted: re-entrancy (a Traverse callback calling back into the tree); btree, list, LRUCache (not thread-safe by contract)"}})
 	reg(&propCfg{ID: "C03", Pkg: "./props/c03", Variants: simple(false),
-		Level:       "held on every executed case: complete sweep of all operation sequences up to length 6 (thorough 7) over push(4 values incl. a comparator tie)/pop/clear/convert/delete under both comparators, FromSlice and Sort on all slices up to length 6 (8), plus seeded random long sequences with Merge/Meld; every Pop/Peek checked for extremality with the comparator itself and the held multiset compared after every step",
+		Level:       "held on every executed case: complete sweep of all operation sequences up to length 6 (thorough 7) over push(4 values incl. a comparator tie)/pop/clear/convert/delete under both comparators, FromSlice and Sort on all slices up to length 6 (8), plus seeded random long sequences with Merge/Meld and variadic pushes of up to 80 values, bulk cases of 255-3000 elements (Push or FromSlice, drain, refill, Convert, drain); every Pop/Peek checked for extremality with the comparator itself and the held multiset compared after every step",
 		Technique:   "reference-model trace monitor (multiset model + comparator as order oracle) over systematic small-scope sweep + seeded random sequences",
 		Assumptions: []string{"the multiset model and the generators are trusted", "comparators are strict orders on the key field", "single goroutine; concurrency is C01/C02"}})
 	reg(&propCfg{ID: "C05", Pkg: "./props/c05", Variants: simple(false),
-		Level:       "held on every executed case: complete sweep of all sequences up to length 7 (thorough 9) over enqueue(3 values)/dequeue/clear/observe for both queue implementations plus seeded random sequences with fill/drain/clear/churn phases and bulk cases holding 300-3000 unique elements (drained to empty, beyond, almost, partly; refilled); every Dequeue result and Size/Peek/Search compared with a slice model, final drain and Dequeue-on-empty",
+		Level:       "held on every executed case: complete sweep of all sequences up to length 7 (thorough 9) over enqueue(3 values)/dequeue/clear/observe for both queue implementations plus seeded random sequences with fill/drain/clear/churn phases and bulk cases holding 300-3000 unique elements (drained to empty, beyond, almost, partly; refilled) and queues of pointers (identity, not look-alike equality); every Dequeue result and Size/Peek/Search compared with a slice model, final drain and Dequeue-on-empty",
 		Technique:   "reference-model trace monitor (FIFO slice model) over systematic small-scope sweep + seeded random sequences",
 		Assumptions: []string{"the slice model and the generators are trusted", "the linked queue reports emptiness by returning the zero value (values enqueued in the sweep are non-zero)", "single goroutine; concurrency is C01/C02"}})
 	reg(&propCfg{ID: "C06", Pkg: "./props/c06", Variants: simple(false),
-		Level:       "held on every executed case: complete sweep of all sequences up to length 8 (thorough 10) over push(3 values)/pop/observe for both stack implementations plus seeded random sequences that repeatedly empty and refill and bulk cases holding 300-3000 unique elements (popped to empty, beyond, almost, partly; refilled); every Pop result and Size/Peek/Search compared with a slice model, drain with Peek before each Pop, Pop-on-empty",
+		Level:       "held on every executed case: complete sweep of all sequences up to length 8 (thorough 10) over push(3 values)/pop/observe for both stack implementations plus seeded random sequences that repeatedly empty and refill and bulk cases holding 300-3000 unique elements (popped to empty, beyond, almost, partly; refilled) and stacks of pointers / pointer-holding structs; every Pop result and Size/Peek/Search compared with a slice model, drain with Peek before each Pop, Pop-on-empty",
 		Technique:   "reference-model trace monitor (LIFO slice model) over systematic small-scope sweep + seeded random sequences",
 		Assumptions: []string{"the slice model and the generators are trusted", "single goroutine; concurrency is C01/C02"}})
 	reg(&propCfg{ID: "C07", Pkg: "./props/c07", Variants: simple(false),
-		Level:       "held on every executed case: complete sweep of all sequences up to length 5 (thorough 6) of the eight operations over 3 keys for capacities 1..3 and up to length 4 (5) over 5 keys for capacities 3..4, plus seeded random long sequences with capacities up to 16; every return value compared with a recency-list model, Count/GetYoungest after every step, final drain by RemoveOldest",
+		Level:       "held on every executed case: complete sweep of all sequences up to length 5 (thorough 6) of the eight operations over 3 keys for capacities 1..3 and up to length 4 (5) over 5 keys for capacities 3..4, plus seeded random long sequences with capacities up to 16 (every 400th: 64-1000 entries, thousands of operations); every return value compared with a recency-list model, Count/GetYoungest after every step, final drain by RemoveOldest",
 		Technique:   "reference-model trace monitor (recency-list model) over systematic small-scope sweep + seeded random sequences",
 		Assumptions: []string{"the recency-list model (refresh on Add, Get, GetOldest only) and the generators are trusted", "LRUCache is single-threaded by contract"}})
 	reg(&propCfg{ID: "C09", Pkg: "./props/c09", Variants: simple(false),
-		Level:       "held on every executed case: complete sweep of all Put sequences of up to 5 keys of length 1..3 over {a,b} (and 4 keys of length 1..2 over {a,b,c}; thorough: 6 keys, key length 4, 3 letters) probed with every string of length <= 4 for Get/Contains/LongestPrefix/StartsWith plus Keys (also with the previous listing left partly unread in the shared result queue), and seeded random key sets with shared prefixes, nested keys and bytes 0x00/>=0x80",
+		Level:       "held on every executed case: complete sweep of all Put sequences of up to 5 keys of length 1..3 over {a,b} (and 4 keys of length 1..2 over {a,b,c}; thorough: 6 keys, key length 4, 3 letters) probed with every string of length <= 4 for Get/Contains/LongestPrefix/StartsWith plus Keys (also with the previous listing left partly unread in the shared result queue), and seeded random key sets with shared prefixes, nested keys and bytes 0x00/>=0x80 (every 250th: 150-700 keys)",
 		Technique:   "reference-model trace monitor (map + sorted key list) over systematic small-scope sweep + seeded random key sets",
 		Assumptions: []string{"the map model and the generators are trusted", "the trie is backed by queue.Queue as in the package's own example", "Put with an empty key is outside the property's domain and not exercised", "single goroutine; concurrency is C01/C02"}})
 	reg(&propCfg{ID: "C10", Pkg: "./props/c10", Variants: simple(false),
-		Level:       "held on every executed case: complete sweep of all Put/Remove sequences up to length 6 (thorough 7) over keys 0..5, seeded random sequences over up to 100 keys and sorted/reversed/random bulk loads of 200-2000 (thorough 50000) keys with interleaved removes and re-puts, 20000 (400000) insertion orders of 4-200 keys built from ascending/descending runs over shuffled key blocks, alternating runs, zigzag and middle-out orders; the height bound after every single step, the key just written or removed read back before any other lookup, observation every 1st/2nd/5th/11th step, Size/IsEmpty/Get of every probe key/Traverse compared with a map model",
+		Level:       "held on every executed case: complete sweep of all Put/Remove sequences up to length 6 (thorough 7) over keys 0..5, seeded random sequences over up to 100 keys and sorted/reversed/random bulk loads of 200-2000 (thorough 50000) keys with interleaved removes and re-puts, sorted/reversed loads of 20 000+ keys and mass removal (all or most keys removed again, Size after every Remove), 20000 (400000) insertion orders of 4-200 keys built from ascending/descending runs over shuffled key blocks, alternating runs, zigzag and middle-out orders; the height bound after every single step, the key just written or removed read back before any other lookup, observation every 1st/2nd/5th/11th step, Size/IsEmpty/Get of every probe key/Traverse compared with a map model",
 		Technique:   "reference-model trace monitor (map model + logarithmic height bound) over systematic small-scope sweep + seeded random and bulk sequences",
 		Assumptions: []string{"the map model and the generators are trusted", "the slot-file announcement is truncated for bulk cases (they are re-generated from the seed, not re-executed from the slot)", "BTree is single-threaded by contract"}})
 	reg(&propCfg{ID: "C19", Pkg: "./props/c19", Variants: simple(false),
-		Level:       "held on every executed case: complete sweep of all edit sequences up to length 5 (thorough 6) over 14 (SList) / 17 (DList) operations with positional targets first/middle/last/absent plus seeded random sequences up to length 30; the Each sequence, First/Last, Find of every value, error results, absence of panics and cycles checked against a slice model after every step",
+		Level:       "held on every executed case: complete sweep of all edit sequences up to length 5 (thorough 6) over 14 (SList) / 17 (DList) operations with positional targets first/middle/last/absent plus seeded random sequences up to length 30 (every 500th: 120-300 growth-biased edits), all sequences up to length 5 (6) on lists holding duplicate values (Replace = first occurrence), lists of 70 001 and 140 000 nodes; the Each sequence, First/Last, Find of every value, error results, absence of panics and cycles checked against a slice model after every step",
 		Technique:   "reference-model trace monitor (slice model, logical cycle bound inside the Each callback) over systematic small-scope sweep + seeded random sequences",
 		Assumptions: []string{"the slice model and the generators are trusted", "values are distinct and handles come from Find immediately before use (stale handles, duplicates and Delete(nil) are outside the property)", "Shift/Pop on a one-element list may leave it unchanged or zero its value (the model adopts what it sees)"}})
 	reg(&propCfg{ID: "C11", Pkg: "./props/c11", Variants: simple(false),
-		Level:       "held on every executed case: complete enumeration of all slices up to length 5 (thorough 6) over {0,1,2}, all pairs (<=4, <=3) and triples (<=3) for the multi-argument functions, four key functions incl. a non-idempotent one, a bounded family of Union nestings up to depth 3 incl. malformed ones, plus seeded random inputs over int/string/float64 incl. large ones (18-600 distinct values, each repeated later); results compared with independent quadratic references",
+		Level:       "held on every executed case: complete enumeration of all slices up to length 5 (thorough 6) over {0,1,2}, all pairs (<=4, <=3) and triples (<=3) for the multi-argument functions, four key functions incl. a non-idempotent one, a bounded family of Union nestings up to depth 3 incl. malformed ones, plus seeded random inputs over int/string/float64 incl. large ones (18-600 distinct values, each repeated later; 2-3 values repeated hundreds of times), Union also with all typed leaves being windows of one backing array; results compared with independent quadratic references",
 		Technique:   "differential monitor against independent quadratic references + defining-property checkers",
 		Assumptions: []string{"the reference implementations are trusted", "IntersectionBy/DifferenceBy duplicate handling is read leniently (see DESIGN C11 'Not asserted')", "Intersection with zero arguments is outside the domain"}})
 	reg(&propCfg{ID: "C12", Pkg: "./props/c12", Variants: simple(false),
-		Level:       "held on every executed case: complete enumeration of all slices up to length 7 (thorough 9) over {0,1,2} x chunk sizes 1..8 x drop counts -9..9 x six predicates x three group keys, all square matrices up to 3x3 over 2 values, a bounded family of nestings up to depth 3, all strings of <=4 runes over a 5-rune alphabet, plus seeded random larger inputs; Merge on overlapping windows of one backing array, a second walk over the same slice after every visitor, Filter then Reject of the same slice; checked against reference implementations, identities and callback logs",
+		Level:       "held on every executed case: complete enumeration of all slices up to length 7 (thorough 9) over {0,1,2} x chunk sizes 1..8 x drop counts -9..9 x six predicates x three group keys, all square matrices up to 3x3 over 2 values, a bounded family of nestings up to depth 3, all strings of <=4 runes over a 5-rune alphabet, plus seeded random larger inputs; Merge on overlapping windows of one backing array, a second walk over the same slice after every visitor, Filter then Reject of the same slice, Chunk/Drop counts at the int limits, Flatten with equal sub-slices being one shared object, inputs of up to 2500 elements; checked against reference implementations, identities and callback logs",
 		Technique:   "differential monitor against reference implementations + round-trip identities + logging callbacks",
 		Assumptions: []string{"the references are trusted", "Chunk with size <= 0 and Zip/Unzip on non-square input panic by documentation and are not judged", "Shuffle is only required to return a permutation"}})
 	reg(&propCfg{ID: "C13", Pkg: "./props/c13", Variants: simple(false),
-		Level:       "held on every executed case: complete enumeration of all slices up to length 5 (thorough 6) over 3 values x probes/predicates/key functions/index windows, ALL int8 triples for Clamp/InRange and all int8 for Abs, all 1-/2-/3-argument Range forms in [-10,10] (thorough [-14,14]) plus quarter-step floats, all map slices up to length 5 for the ByKey variants, Nth at the extreme int values, Sum/SumBy/Mean on int8..uint64/float32 against accumulation in the element type, Compare with by-key comparators, plus seeded random inputs; checked against the definitions",
+		Level:       "held on every executed case: complete enumeration of all slices up to length 5 (thorough 6) over 3 values x probes/predicates/key functions/index windows, ALL int8 triples for Clamp/InRange and all int8 for Abs, all 1-/2-/3-argument Range forms in [-10,10] (thorough [-14,14]) plus quarter-step floats, all map slices up to length 5 for the ByKey variants, Nth at the extreme int values, Sum/SumBy/Mean on int8..uint64/float32 against accumulation in the element type, Compare with by-key comparators, Range over uint64 (upper half)/uint32/uint8/int8/int64 and with float steps finer than two decimals, Equal/IndexOf/Contains on floats one ulp apart, slices of up to 3000 elements, plus seeded random inputs; checked against the definitions",
 		Technique:   "definitional checkers (differential against direct definitions) over complete small-scope enumeration + seeded random inputs; hangs/blow-ups by watchdog + isolated re-execution",
 		Assumptions: []string{"the definitions as coded in the checker are trusted", "not asserted: Mean of an empty slice, Clamp with min > max, unsigned/overflowing Range arguments, Range() with no argument", "FindMin/MaxByKey when some map lacks the key: an error or the extremum over the maps that have it"}})
 	reg(&propCfg{ID: "C14", Pkg: "./props/c14", Variants: simple(false),
-		Level:       "held on every executed case: complete enumeration of all maps with up to 3 (thorough 4) entries over 4 keys (incl. the zero key, the empty string) x 3 values x five value predicates x all key lists up to length 3, all collections of up to 3 (4) maps from a pool of 8, plus seeded random larger maps; each case executed 4 times on freshly built maps; results compared with references as sets/maps or by their defining property",
+		Level:       "held on every executed case: complete enumeration of all maps with up to 3 (thorough 4) entries over 4 keys (incl. the zero key, the empty string) x 3 values x five value predicates x all key lists up to length 3, all collections of up to 3 (4) maps from a pool of 8, plus seeded random larger maps; float64-keyed maps holding NaN keys for FilterMap/PickBy/MapValues/Keys/Values/MapSome/MapEvery; each case executed 4 times on freshly built maps; results compared with references as sets/maps or by their defining property",
 		Technique:   "differential monitor + defining-property checkers, each case repeated to sample map iteration orders",
 		Assumptions: []string{"the references are trusted", "Go's per-range random iteration start is the source of iteration-order diversity (4 executions per case)", "Pick with an empty key list returns an error by documentation (only its empty result is checked)"}})
 	reg(&propCfg{ID: "C15", Pkg: "./props/c15", Variants: simple(false),
-		Level:       "held on every executed case: complete enumeration of all strings of up to 4 (thorough 5) symbols over {a,B,é,',*,space} x offsets/lengths/indices/sizes in len±3 x 7 tokens, all strings up to length 6 (7) over the token characters for Unwrap, all 1-3 word phrases over an 8-word vocabulary x 8 separator runs for the case styles, plus seeded random longer inputs incl. multi-byte runes and NUL; compared with byte-level references and round-trip identities",
+		Level:       "held on every executed case: complete enumeration of all strings of up to 4 (thorough 5) symbols over {a,B,é,',*,space} x offsets/lengths/indices/sizes in len±3 x 7 tokens, all strings up to length 6 (7) over the token characters for Unwrap, all 1-3 word phrases over an 8-word vocabulary x 8 separator runs for the case styles, offsets/lengths/indices at the int limits, fields padded to 4-70 KB with tokens of 1-7 bytes, plus seeded random longer inputs (up to 600 symbols) incl. multi-byte runes and NUL; compared with byte-level references and round-trip identities",
 		Technique:   "differential monitor against byte-level references + round-trip identities",
 		Assumptions: []string{"the references are trusted (Substr: out-of-range selection = empty string, as the property restates the PHP rule)", "not asserted: Pad* with an empty token, case mapping/WrapAllRune on invalid UTF-8, the case styles outside ASCII alphanumeric words joined by runs of ' -_&'"}})
 	reg(&propCfg{ID: "C16", Pkg: "./props/c16", Variants: simple(false),
-		Level:       "held on every executed case: every adapter (one per exported slice/map helper, cross-checked against the package's exported functions) x 200 (thorough 2000) generated argument tuples x spare capacity {0,1,8}, and every ordered pair of non-in-place adapters sharing the first argument x 20 (200) tuples; arguments compared with shadow copies incl. sentinel-filled capacity regions, the slice-of-slices behind spread variadic parameters and []map collections tracked slot by slot, earlier results re-read after later calls, also after later IN-PLACE calls on the same argument for every helper that does not return a view, callbacks that re-check the arguments from inside every invocation and callbacks that panic mid-call",
+		Level:       "held on every executed case: every adapter (one per exported slice/map helper, cross-checked against the package's exported functions) x 200 (thorough 2000) generated argument tuples x spare capacity {0,1,8}, and every ordered pair of non-in-place adapters sharing the first argument x 20 (200) tuples; arguments compared with shadow copies incl. sentinel-filled capacity regions, the slice-of-slices behind spread variadic parameters and []map collections tracked slot by slot, earlier results re-read after later calls, also after later IN-PLACE calls on the same argument for every helper that does not return a view, callbacks that re-check the arguments from inside every invocation and callbacks that panic mid-call, the parts of composite results (Zip/Unzip rows, Partition halves, GroupBy groups) probed for shared capacity, spread key lists of Omit/Pick, the function made by Flip called twice",
 		Technique:   "shadow-copy monitor with capacity-region sentinels; result re-read after later calls",
 		Assumptions: []string{"helpers whose arguments are strings/scalars only cannot disturb them (Go strings are immutable) and are listed, not executed", "views (Drop, Chunk; the map-collection filters return the argument's maps) may alias their argument; only writes are judged", "the documented in-place helpers are Reverse, Reject, Omit, OmitBy, heap.FromSlice, heap.Sort"}})
 	reg(&propCfg{ID: "C18", Pkg: "./props/c18", Variants: simple(false),
-		Level:       "held on every executed case: complete enumeration of n in -2..8 x 0..12 calls x counter types for After/Before, 0..12 calls x first result {10, 0, -1, 1} for Once with int, bool and string results (the zero value must be cached like any other), n in -2..8 x all 511 success/failure patterns up to length 8 for Retry and RetryWithDelay (the latter inside testing/synctest bubbles: the wait between the end of one attempt and the start of the next is an exact virtual-time difference, also when the attempts themselves take time shorter than, equal to or longer than the delay)",
+		Level:       "held on every executed case: complete enumeration of n in -2..8 x 0..12 calls x counter types for After/Before, 0..12 calls x first result {10, 0, -1, 1} for Once with int, bool and string results (the zero value must be cached like any other), Once on expiring caches in virtual time (one run per lifetime of the memo, with and without a cleanup goroutine), n in -2..8 x all 511 success/failure patterns up to length 8 for Retry and RetryWithDelay (the latter inside testing/synctest bubbles: the wait between the end of one attempt and the start of the next is an exact virtual-time difference, also when the attempts themselves take time shorter than, equal to or longer than the delay)",
 		Technique:   "counting-callback monitor over complete enumeration; virtual time (testing/synctest) for the delay clause",
 		Assumptions: []string{"the fake clock of testing/synctest is trusted as the time source the library reads", "not asserted: Retry's error value for n <= 0; counter wrap-around of narrow integer types after > 127 calls"}})
 	reg(&propCfg{ID: "C08", Pkg: "./props/c08", Variants: func(tier string) []variant {
@@ -110,7 +110,7 @@ func init() {
 		}
 		return vs
 	},
-		Level:       "held on every executed case: complete sweep of all sequences up to length 4 (thorough 5) over 23 operations (incl. clock advances to 1 ns before/after the earliest pending deadline) on 2 keys for all six default-expiry x cleanup configurations, plus seeded random sequences up to length 25 on 3 keys; every observable (Get, IsExpired, Count, List) compared after every step with a map-with-deadlines model at the same virtual instant, cleanup ticks included; concurrent half: every program of 2 threads x <=2 calls and 3 threads x 1 call over Set/Get/Update/Delete/Count/DeleteExpired/IsExpired (quick: those containing DeleteExpired or IsExpired) on a cache that starts with expired-but-unpurged entries, 8 (thorough 48) executions each under seeded delays at lock boundaries, every history checked with porcupine against the sequentially replayed implementation (a purge must never remove an entry a racing Set/Update has just made live)",
+		Level:       "held on every executed case: complete sweep of all sequences up to length 4 (thorough 5) over 23 operations (incl. clock advances to 1 ns before/after the earliest pending deadline) on 2 keys for all six default-expiry x cleanup configurations, plus seeded random sequences up to length 25 on 3 keys; every observable (Get, IsExpired, Count, List) compared after every step with a map-with-deadlines model at the same virtual instant, cleanup ticks included; concurrent half: every program of 2 threads x <=2 calls and 3 threads x 1 call over Set/Get/Update/Delete/Count/DeleteExpired/IsExpired (quick: those containing DeleteExpired or IsExpired) on a cache that starts with expired-but-unpurged entries, 8 (thorough 48) executions each under seeded delays at lock boundaries, every history checked with porcupine against the sequentially replayed implementation (a purge must never remove an entry a racing Set/Update has just made live); plus bulk cases of 200-3000 entries expiring together (purged by DeleteExpired or by the cleanup goroutine: Count, List and every Get exact)",
 		Technique:   "reference-model trace monitor in virtual time (testing/synctest): observations at exact instants around deadlines and cleanup ticks; concurrent purge/expiry histories checked with porcupine under the tracked sync shim",
 		Assumptions: []string{"the fake clock of testing/synctest is the time source the library reads (time.Now/Ticker)", "hook: cache.VerifStopCleanup (tag verif) ends the cleanup goroutine at the end of each case", "not asserted: whether Count/List include expired-but-unpurged entries, Delete's result on such an entry, behaviour exactly at a deadline", "concurrent half: expired entries are created in the sequential initial state with a 1 ns lifetime and the call returns only after the wall clock passed it; entries stored by the concurrent calls never expire, so no recorded result depends on when a call ran; interleavings are those the runtime + seeded delays produce"}})
 	reg(&propCfg{ID: "C17", Pkg: "./props/c17", Variants: func(tier string) []variant {
@@ -119,7 +119,7 @@ func init() {
 		}
 		return []variant{{Name: "race", Race: true, Shards: 1}}
 	},
-		Level:       "held on every executed case: callers {1,2,4,8,16} x keys {1,2,3} x latency {0,10ms,1s} x outcome {value,error,error-then-value,item+error,item+error-then-value} x expiry {never,25ms} x 4 start patterns x 12 repetitions inside testing/synctest bubbles under the race detector (thorough: 4 race-build children with GOMAXPROCS 16/4/2/1 at these bounds, plus 120 repetitions in a plain build), plus every sequential call/advance pattern up to length 5 (6) against an exact model; in-flight counter and virtual-time execution log inside the supplied function",
+		Level:       "held on every executed case: callers {1,2,4,8,16} x keys {1,2,3} x latency {0,10ms,1s} x outcome {value,error,error-then-value,item+error,item+error-then-value} x expiry {never,25ms} x 4 start patterns x 12 repetitions inside testing/synctest bubbles under the race detector (thorough: 4 race-build children with GOMAXPROCS 16/4/2/1 at these bounds, plus 120 repetitions in a plain build), plus every sequential call/advance pattern up to length 5 (6) against an exact model, plus Memoizer[string,any] with nil/0/string/typed-nil results; in-flight counter and virtual-time execution log inside the supplied function",
 		Technique:   "in-callback monitor (in-flight counter + execution log) and caller-side log in virtual time (testing/synctest), race detector on",
 		Assumptions: []string{"schedules are those the Go runtime produces inside the bubble (repetitions, GOMAXPROCS varied in the thorough tier); not exhaustive", "not asserted: that a caller which began before the value was cached does not recompute (lookup-then-singleflight window)", "cache.Items are minted through a separate cache because Item has no exported constructor"}})
 	reg(&propCfg{ID: "C20", Pkg: "./props/c20", Variants: func(tier string) []variant {
@@ -128,11 +128,11 @@ func init() {
 		}
 		return []variant{{Name: "race", Race: true, Shards: 1}}
 	},
-		Level:       "held on every executed case: Delay with Stop at instants around the delay; all debounce scripts up to length 4 (thorough 5) over call/burst/cancel x 4 gaps x 2 waits plus random bursts of 1..50 calls; all throttle scripts up to length 4 (5) over Call/burst x 4 gaps x 7 consumer arrangements x trailing on/off x period 5ms (thorough: also 50ms) plus random scripts, debounced functions that themselves take 0.6/1.7 waits, Calls and Next after Cancel; executed in testing/synctest bubbles under the race detector with exact virtual timestamps (thorough: the larger bounds run in a plain build, the race build repeats the quick bounds with GOMAXPROCS 16/4/2/1); plus the throttle on the REAL clock under a storm of triggers with permissions taken in pairs bracketed by monotonic clock readings (bracket < period = violation, one-sided and load-proof; 7 (thorough 72) runs of 1.2 (5) s)",
+		Level:       "held on every executed case: Delay with Stop at instants around the delay; all debounce scripts up to length 4 (thorough 5) over call/burst/cancel x 4 gaps x 2 waits plus random bursts of 1..50 calls; all throttle scripts up to length 4 (5) over Call/burst x 4 gaps x 7 consumer arrangements x trailing on/off x period 5ms (thorough: also 50ms) plus random scripts, debounced functions that themselves take 0.6/1.7 waits, Calls and Next after Cancel, Cancel fired while 2-8 consumers are entering Next (40000 / 600000 trials); executed in testing/synctest bubbles under the race detector with exact virtual timestamps (thorough: the larger bounds run in a plain build, the race build repeats the quick bounds with GOMAXPROCS 16/4/2/1); plus the throttle on the REAL clock under a storm of triggers with permissions taken in pairs bracketed by monotonic clock readings (bracket < period = violation, one-sided and load-proof; 7 (thorough 72) runs of 1.2 (5) s)",
 		Technique:   "timestamping callbacks + consumer log in virtual time (testing/synctest), race detector on; one-sided bracketing of permission pairs on the real clock under a trigger storm",
 		Assumptions: []string{"the fake clock of testing/synctest is the time source the library reads (time.AfterFunc/Since/Now)", "nothing is asserted at exact equality (gap == wait, delta == period): scripts avoid it", "schedules are those the Go runtime produces inside the bubble; thorough tier repeats with varied GOMAXPROCS", "throttle liveness is asserted only for the trailing configuration (as the property states)", "the real-clock monitor can only catch what the real timers and the scheduler make happen within its run time (a window of a few microseconds around a late timer callback was hit in about 4 of 5 quick runs on the loaded machine); its verdict never depends on the load"}})
 	reg(&propCfg{ID: "C04", Pkg: "./props/c04", Variants: simple(false),
-		Level:       "held on every executed case: complete sweep of all Upsert/Delete sequences up to length 6 (thorough 7; one less for the descending comparator) over keys 0..4 plus seeded random sequences over up to 64 keys (sorted, reversed, random and churn insertion orders, look-ups around deleted two-child nodes, re-inserts); every Delete/Get result compared with a map model and Size, Get of every probe key and the complete Traverse sequence (each key once, current value, comparator order) after the last step (sweep) or every step (random), the key just written is read back before any other lookup; bulk cases of 129-5000 keys (sorted/reversed/shuffled loads, three rounds of deleting a fifth and re-inserting) with the complete Traverse sequence checked twice after every phase",
+		Level:       "held on every executed case: complete sweep of all Upsert/Delete sequences up to length 6 (thorough 7; one less for the descending comparator) over keys 0..4 plus seeded random sequences over up to 64 keys (sorted, reversed, random and churn insertion orders, look-ups around deleted two-child nodes, re-inserts); every Delete/Get result compared with a map model and Size, Get of every probe key and the complete Traverse sequence (each key once, current value, comparator order) after the last step (sweep) or every step (random), the key just written is read back before any other lookup; bulk cases of 129-5000 keys (sorted/reversed/shuffled loads, three rounds of deleting a fifth and re-inserting) with the complete Traverse sequence checked twice after every phase; a quarter of the cases under a comparator that orders keys by k/3 only (distinct keys equivalent)",
 		Technique:   "reference-model trace monitor (map model) over systematic small-scope sweep + seeded random sequences",
 		Assumptions: []string{"the map model and the generators are trusted", "single goroutine; concurrency is C01/C02"}})
 }
